@@ -1,6 +1,6 @@
 CONFIG = dict(
-    coqfiles=["Props/C14.v", "Props/C14F.v"],
-    sub=["C14F"],
+    coqfiles=["Props/C14.v", "Props/C14F.v", "Props/C14A.v"],
+    sub=["C14F", "C14A"],
     n_quick=3000, n_thorough=120000, workers_quick=8,
     rule="40% ByteStream.Write through the real service with a fake request stream (identity / zstd via the real pkg/zstd pool; payload cut into 1-6 messages "
          "incl. empty ones; half of them damaged by 1-2 of: gap, overlap, non-zero first offset, finish_write missing / early / repeated, data after finish, "
